@@ -18,7 +18,13 @@ class Toggle:
     def __exit__(self, *a):
         self._set(False)
 
+    def supported(self):
+        name = {"legacy": "UseLegacyAddress", "altkeynet": "UseAlternateKeyNetVersions", "depraddr": "UseDeprecatedAddress"}.get(self.variant)
+        return name is None or hasattr(self.conf, name)
+
     def _set(self, v):
+        if not self.supported():
+            return
         if self.variant == "legacy":
             self.conf.UseLegacyAddress(v)
         elif self.variant == "altkeynet":
